@@ -55,7 +55,9 @@ CHECKS['C13'] = (
     'Proof: lookup tables resolve to the unit whose encoded range/extent contains the query, for all queries and all cache states; bisect_right is modelled '
     'as CPython\'s loop and proved equal to the count of keys <= x on sorted lists; the v5 unit headers reuse C04\'s header theorems.',
     'Correspondence-only: malformed / truncated tables and error classes, shadowed range tables (the claim\'s boundary), ill-formed UTF-8 names, 64-bit-format aranges/name tables '
-    '(outside the quantifier), histories calling get_CU_at at an offset where no unit starts (poisons the cache by design, see C10). DIE decoding behind get_DIE_from_lut_entry is C04\'s subject.',
+    '(outside the quantifier), histories calling get_CU_at at an offset where no unit starts (poisons the cache by design, see C10). Composed with C04\'s end-to-end theorem: ref_addr_scan_agrees '
+    '(the bisect/cache lookup equals C04\'s linear scan for every integer offset and every reachable cache), ref_addr_resolution_exact, lut_entry_die_exact, name_to_die_exact (name -> DIE from the bytes of '
+    'both sections), addr_to_top_die — all from section bytes of a well-formed forest. The per-unit DIE cache behind _get_cached_DIE is C10\'s subject.',
     'DESIGN.md §6 C13')
 CHECKS['C14'] = (
     'Lean 4 theorems: note-walk round trip for any number of notes, any name/descriptor size residue, all seven descriptor grammars, both classes/orders, '
@@ -144,9 +146,11 @@ CHECKS['C07'] = (
     'index lookup, unit-block and range-list enumeration exact, attribute classification decided for all (name, version, form); regenerated entry/header structs and '
     'LLE/RLE tables tied to the Spec; correspondence incl. gaps, view pairs, every list-capable form',
     'Proof: lists fetched by offset, attribute or index are exactly the encoded entries, translated as the standard prescribes; enumeration of range lists and unit blocks is exact.',
-    'Location-list enumeration is proved for v4 and v5 (enumeration_exact_locations_v4/_v5: the visited offsets are exactly the referred ones, sorted, gaps skipped); the '
-    'LocationListsPair/RangeListsPair wrappers are modelled with dispatch theorems (pair_*). The model receives the (name, form, raw value) triples the harness assembled into '
-    '.debug_info (DIE decoding is C04; die_refs_exact/die_decoding_plain state the interface). Malformed lists and view-pair corner cases are correspondence-only.',
+    'Location-list enumeration is proved for v4 and v5 (visited offsets exactly the referred ones, sorted, gaps skipped); the LocationListsPair/RangeListsPair wrappers are modelled with dispatch theorems. '
+    'The DIE-decoding interface is discharged with C04\'s end-to-end theorem: debug_info_cus_exact, die_decoding_exact, enumeration_exact_locations_v4_info / _v5_info, parse_from_attribute_info — from the '
+    'bytes of .debug_info + .debug_abbrev + the list sections + .debug_addr, hypotheses on the description only (wfForestB, forestResolves: each index designates a slot inside its section). Expressions inside '
+    'entries are C12\'s round trip (location_expr_ops_exact). enumeration_exact_ranges_info is partial (no section layout description for ranges: each fetch is the round-trip theorem). '
+    'Correspondence-only: malformed lists, offsets beyond the section, offset-table index out of range, view-pair corner cases outside refsAgree.',
     'DESIGN.md §6 C07')
 CHECKS['C15'] = (
     'Lean 4 theorems under a decidable layout predicate on the whole file (arbitrary, padded, interleaved, zero displacements): iter_versions with every aux chain = the '
